@@ -230,3 +230,13 @@ func VerifC03DrainPrefetch(c *Cache, after func(key uint64, refreshed *CacheEntr
 func VerifC03Age(e *CacheEntry) {
 	e.stored = e.stored.Add(-e.ttl / 10 * 9)
 }
+
+// VerifC03FailureZones lists the names walkFailureZones visits for name.
+func VerifC03FailureZones(name string) []string {
+	var out []string
+	walkFailureZones(name, func(zone string) bool {
+		out = append(out, zone)
+		return true
+	})
+	return out
+}
